@@ -66,3 +66,14 @@ package epochkghandler
 //@   ensures ret0 == 0 || ret0 == 1
 //@ func (*EonPublicKeyHandler).HandleMessage
 //@   ensures ret1 == nil
+//@
+//@ // C02: a key-share message is constructed exactly for the identities of the trigger, in order, and only by a
+//@ // member of the eon's keyper set whose key generation for that eon succeeded
+//@ func (*KeyShareHandler).ConstructDecryptionKeyShares
+//@   requires ksh != nil
+//@   ensures ret1 == nil ==> (ret0 != nil && len(ret0.Shares) == len(identityPreimages) && len(identityPreimages) >= 1 && len(identityPreimages) <= ksh.MaxNumKeysPerMessage)
+//@   ensures ret1 == nil ==> (forall i :: 0 <= i && i < len(identityPreimages) ==> (ret0.Shares[i] != nil && content(ret0.Shares[i].IdentityPreimage) == content(identityPreimages[i])))
+//@   ensures ret1 == nil ==> (memberOfSet(int32(eon.KeyperConfigIndex), addrHex(ksh.KeyperAddress)) && dkgEonSucceeded(eon.Eon))
+//@   ensures ret1 == nil ==> (ret0.Eon == eon.KeyperConfigIndex && ret0.InstanceId == ksh.InstanceID)
+//@   invariant@2 len(shares) == rangeindex + 1
+//@   invariant@2 forall i :: 0 <= i && i <= rangeindex ==> (shares[i] != nil && content(shares[i].IdentityPreimage) == content(identityPreimages[i]))
